@@ -1,7 +1,7 @@
 (* C09 — restart semantics: warm keeps exactly RETAIN data, cold equals a fresh start, bindings stay
    connected, power cycle = warm. Pinned. Program execution is a parameter of the model. *)
 From Coq Require Import ZArith List Bool.
-From TP Require Import Model.Restart Proofs.C09Proofs.
+From TP Require Import Model.Restart Model.RestartTasks Proofs.C09Proofs.
 Import ListNotations.
 Open Scope Z_scope.
 
@@ -57,6 +57,15 @@ Theorem globals_only_store_refuted :
   read_var (restart c true s) 0 0 = 2 /\ read_var (power_cycle c s) 0 0 = 0.
 Proof. exact globals_only_store_loses_program_retain. Qed.
 
+(* task state is re-created by a restart: an event (SINGLE) task sees every later trigger trace as a fresh runtime does *)
+Theorem restarted_event_task_equals_fresh : forall s ops, ev_run false (ev_step false false s ERestart) ops = ev_run false ev_fresh ops.
+Proof. exact restarted_event_task_is_fresh. Qed.
+Theorem kept_edge_latch_refuted :
+  let s := ev_run true ev_fresh [ESetTrig true; ECycle; ERestart; ESetTrig true; ECycle] in
+  let f := ev_run true ev_fresh [ESetTrig true; ECycle] in
+  e_count s = 0 /\ e_count f = 1.
+Proof. exact stale_latch_swallows_edge. Qed.
+
 Example c09_nonvacuous :
   let c := {| c_globals := [{| m_retain := true; m_init := 3 |}; {| m_retain := false; m_init := 4 |}];
               c_progs := [[{| m_retain := true; m_init := 1 |}; {| m_retain := false; m_init := 2 |}]];
@@ -78,3 +87,5 @@ Print Assumptions new_instances_disconnect_bindings_refuted.
 Print Assumptions power_cycle_equals_warm_globals.
 Print Assumptions power_cycle_equals_warm_program_vars.
 Print Assumptions globals_only_store_refuted.
+Print Assumptions restarted_event_task_equals_fresh.
+Print Assumptions kept_edge_latch_refuted.
